@@ -431,6 +431,19 @@ def rule_abort_sequence(prog, res, rule="R-ABORT-SEQ"):
         else:
             res.fail(rule, inst, "%s|%s" % (rule, name.split("(")[0].split(" ")[0]), f.loc(),
                      "acquire_abort can skip '%s' for a valid stream: %s, and the following acquire_stop waits forever" % (name, why))
+    # order: the trigger is a one-shot wake-up; the stop request must already
+    # be visible when the source returns from the frame call it releases
+    trig = [(b.id, i) for b, i, s in f.all_stmts() if b.id in body and reqs[2][1](s)]
+    inst = "acquire_abort: stop request is stored before the one-shot trigger"
+    if trig:
+        ok = all(paths.all_paths_pass(f, (t, -1), set(trig), paths.through_callees(prog, f, reqs[0][1]))[0]
+                 for t in valid_starts)
+        if ok:
+            res.oblige(rule, inst, True, "source.is_stopping = 1 on every path from the valid-stream edge to the trigger", f.loc())
+        else:
+            res.fail(rule, inst, "%s|order" % rule, f.loc(),
+                     "acquire_abort can fire the software trigger before it stores source.is_stopping = 1: the source takes the released frame, "
+                     "re-tests the flag (still 0) and blocks in the next frame call, for which no trigger will come; acquire_stop then joins forever")
     return len(reqs)
 
 
